@@ -7,7 +7,7 @@ from warnings import warn
 
 import numpy as np
 
-from .core import _GLOBAL_RNG, BigSMILESbase
+from .core import _GLOBAL_RNG, BigSMILESbase, find_mixture_separator
 from .mixture import Mixture
 from .molecule import Molecule
 
@@ -108,9 +108,9 @@ class System(BigSMILESbase):
         self._molecules = []
         text = copy.copy(self._raw_text)
         res_id_counter = 0
-        while text.find(".|") >= 0:
+        while find_mixture_separator(text) >= 0:
             # text = text[text.find(".|") :].strip()
-            end_pos = text.find("|", text.find(".|") + 2) + 1
+            end_pos = text.find("|", find_mixture_separator(text) + 2) + 1
             if end_pos <= 0:
                 raise RuntimeError(
                     f"System {text} contains an opening '.|' for a stochastic object, but no closing '|'."
